@@ -216,6 +216,7 @@ pub fn run(repo: &str, unit_path: &str, canary: bool) -> std::result::Result<Run
     let mut used_expr: HashSet<String> = HashSet::new();
     let mut used_type: HashSet<String> = HashSet::new();
     let mut unit_exprmap_keys: Vec<String> = vec![];
+    let mut dropped_fns: Vec<String> = vec![];
     let mut unused_local: Vec<J> = vec![];
 
     let lines: Vec<&str> = tpl.lines().collect();
@@ -473,6 +474,16 @@ pub fn run(repo: &str, unit_path: &str, canary: bool) -> std::result::Result<Run
                 if !closed {
                     return Err(format!("//@fn {target}: missing //@end"));
                 }
+                // VX_DROP_FNS=<target>,<target>: the named //@fn blocks are skipped (check.py sets it after a `lost-anchor fn` for a
+                // function that no longer exists, to verify the rest of the unit; the run stays undecided unless that finds a failure)
+                if std::env::var("VX_DROP_FNS").map(|v| v.split(',').any(|x| x == target)).unwrap_or(false) {
+                    while em.out.last().map(|l| l.trim_start().starts_with("#[") && l.trim_end().ends_with(']')).unwrap_or(false) {
+                        em.out.pop();
+                    }
+                    em.push_raw(&format!("// vx: //@fn {target} dropped (VX_DROP_FNS)"));
+                    dropped_fns.push(target.clone());
+                    continue;
+                }
                 let nth = o.get("nth").and_then(|x| x.parse().ok()).unwrap_or(usize::MAX);
                 let (src, f) = files.get(&file)?;
                 let _ = src;
@@ -717,10 +728,16 @@ pub fn run(repo: &str, unit_path: &str, canary: bool) -> std::result::Result<Run
                     sigtxt.push_str(&format!(" {}", wc.to_token_stream()));
                 }
                 // a lifted closure has no signature of its own: the template supplies it on a contract line `sig: <text>`
-                if o.contains_key("closure") || o.contains_key("arm") || o.contains_key("iflet") || o.contains_key("forbody") || o.contains_key("ifcond") {
+                if o.contains_key("closure") || o.contains_key("arm") || o.contains_key("iflet") || o.contains_key("forbody") || o.contains_key("ifcond") || o.contains_key("ghostsig") {
                     let pos = contract.iter().position(|l| l.trim_start().starts_with("sig:")).ok_or("closure= needs a `sig: fn name(..) -> (r: T)` line")?;
                     let l = contract.remove(pos);
                     sigtxt = l.trim_start()["sig:".len()..].trim().to_string();
+                    if o.contains_key("ghostsig") {
+                        // R14: the whole function is copied, but its signature is the template's (the executable parameters as in the
+                        // source plus ghost/tracked ones the contract talks about); the source signature is kept in the log
+                        rewrites.push(json!({"rule": "R14", "in": target, "file": file, "src_line": src_line,
+                            "before": orig_sig.clone(), "after": sigtxt.clone()}));
+                    }
                 }
                 let pad = " ".repeat(indent);
                 // attribute lines written in the template right above the directive (replicated for the canary copy)
@@ -830,6 +847,7 @@ pub fn run(repo: &str, unit_path: &str, canary: bool) -> std::result::Result<Run
         "line_map": em.map,
         "unused_unit_exprmaps": unused_expr,
         "unused_local_exprmaps": unused_local,
+        "dropped_fns": dropped_fns,
     });
     Ok(RunResult { text: em.out.join("\n") + "\n", log })
 }
